@@ -259,7 +259,8 @@ def post_polar(ctx, call):
     if not (R.finite(self.array) and R.finite(pt.array)) or pt.array.ndim != 1:
         return
     want = np.asarray(self.array, dtype=complex) @ np.asarray(pt.array, dtype=complex)
-    if not np.any(np.abs(want) > 0):
+    if not np.any(np.abs(want) > 1e-9 * np.abs(np.asarray(self.array)).max() * np.abs(np.asarray(pt.array)).max()):
+        ctx.skip("polar", "singular point of a degenerate quadric (M p = 0 up to rounding): no polar")
         return
     r = X.proj_residual(call.result.array, want)
     ctx.judge("polar", r <= 1e-9, [self.array, pt.array], what=f"polar is not M p (residual {r:.3g})", op="polar", nontrivial=True)
@@ -490,6 +491,21 @@ def g_generic(ctx, rng, i):
     _try(QC.is_tangent, HC)
     _try(QC.tangent, g.PointCollection(ps))
     _try(lambda: QC.dual)
+    # elements taken out of the dual collection (index, iteration, slice) are dual quadrics: dual again gives the original quadric
+    qd = _try(lambda: QC.dual)
+    if qd is not None:
+        first = (0,) * len(shape)
+        for e_ in (_try(lambda: qd[first if len(first) > 1 else 0]), _try(lambda: next(iter(qd))) if len(shape) == 1 else None, _try(lambda: qd[0:1])):
+            if e_ is None or not hasattr(type(e_), "dual"):
+                continue
+            back = _try(lambda: e_.dual)
+            want = As[first] if e_.array.ndim == 2 else (As[0:1] if e_.array.shape == As[0:1].shape else None)
+            cond_ = float(np.max(np.linalg.cond(np.asarray(want if want is not None else As[first], dtype=float))))
+            if back is not None and want is not None and cond_ < 1e5:
+                r = max(X.proj_residual(np.asarray(x, dtype=complex).ravel(), np.asarray(y, dtype=complex).ravel())
+                        for x, y in zip(np.asarray(back.array).reshape((-1, n, n)), np.asarray(want).reshape((-1, n, n))))
+                ctx.judge("dual", bool(r <= 1e-12 * cond_ ** 2 + 1e-10 and back.is_dual is False and e_.is_dual is True), [As[first]], op="QuadricCollection.dual[k].dual", nontrivial=True,
+                          what=f"element of the dual collection: is_dual {e_.is_dual}, its dual: is_dual {back.is_dual}, residual to the original matrix {r:.3g}")
 
 
 def g_special(ctx, rng, i):
